@@ -277,6 +277,7 @@ static vector<string> draw_pool(sim_rng &r, const string &prop, int n) {
             if (c < 40) p.push_back(pick(r, G.gen)); else if (c < 70) p.push_back(pick(r, G.emails));
             else if (c < 85) p.push_back(pick(r, G.idn)); else p.push_back(pick(r, G.conv));
         }
+        if (sim_below(&r, 40) == 0) { static const char *deg[] = { "", "@", "a@", "@b.com", "noat", "@@", "a@b" }; p.back() = deg[sim_below(&r, 7)]; }
         // the neighbourhood of the hand-made shapes: seeded structural mutation of one address in five
         if (sim_below(&r, 5) == 0) p.back() = mut::mutate(&r, p.back());
     }
